@@ -15,7 +15,9 @@ def standard_queries(U, extra_bad=(), witnesses=()):
     qs = [
         ("panic-or-ghost-violation", U.fired(lambda e: e.panic is not None and not e.panic.startswith("RANGE")), "unsat"),
         ("range-of-narrowed-variables", U.fired(lambda e: e.panic is not None and e.panic.startswith("RANGE")), "unsat"),
-        ("deadlock", z3.Or(*[z3.And(U.stuck(k), z3.Not(U.all_done(k))) for k in range(K)]), "unsat"),
+        # (a thread that panicked stops for good; what the others do afterwards is not a deadlock of the protocol)
+        ("deadlock", z3.And(z3.Or(*[z3.And(U.stuck(k), z3.Not(U.all_done(k))) for k in range(K)]),
+                            z3.Not(U.fired(lambda e: e.panic is not None))), "unsat"),
         ("unfinished-at-K", z3.And(z3.Not(U.all_done(K)), *[z3.Not(U.stuck(k)) for k in range(K)]), "unsat"),
     ]
     qs += [(n, f, "unsat") for n, f in extra_bad]
@@ -23,7 +25,8 @@ def standard_queries(U, extra_bad=(), witnesses=()):
     return qs
 
 
-def decide_all(U, qs, tmo, tag, jobs, pid, label):
+def decide_all(U, qs, tmo, tag, jobs, pid, label, final_checks=None):
+    """final_checks: name -> callable(system, done) evaluated on the concrete final state of the replayed trace"""
     res = U.decide_many([(n, f) for n, f, _ in qs], tmo, tag, jobs)
     out = {}
     for n, f, expect in qs:
@@ -32,6 +35,16 @@ def decide_all(U, qs, tmo, tag, jobs, pid, label):
         o.update(st)
         if v == "sat" and expect == "unsat":
             o["trace"] = tr
+            if n not in ("unfinished-at-K", "range-of-narrowed-variables"):
+                # replay: the trace is re-executed directly on the MIR, concretely, thread by thread
+                kind = "panic" if n == "panic-or-ghost-violation" else ("deadlock" if n == "deadlock" else (final_checks or {}).get(n))
+                if kind is not None:
+                    try:
+                        ok, lg = U.s.replay(tr, kind)
+                    except Inconclusive as e:
+                        ok, lg = False, ["replay inconclusive: %s" % e]
+                    o["replayed"] = ok
+                    o["replay_log"] = lg[-40:]
         out[n] = o
         log("   [%s %s K=%d] %s: %s (cnf %.1fs, sat %.1fs)" % (pid, label, U.K, n, v, st.get("cnf_s", 0), st.get("sat_s", 0)))
     return out
@@ -50,6 +63,8 @@ def judge(results, rep, key_prefix, name_of):
     configurations may stay bounded (bug hunting up to K) or undecided: listed in the evidence.
     Returns (number of queries, undecided list, bounded list)."""
     nq, undecided, bounded = 0, [], []
+    problems = []
+
     for idx, r in enumerate(results):
         nm = name_of(r)
         for name, q in r["queries"].items():
@@ -58,19 +73,26 @@ def judge(results, rep, key_prefix, name_of):
             if v == "unknown":
                 undecided.append("%s K=%d %s" % (nm, r["K"], name))
                 if idx == 0:
-                    raise Inconclusive("core configuration %s: query %s undecided within the time cap" % (nm, name))
+                    problems.append("core configuration %s: query %s undecided within the time cap" % (nm, name))
             elif exp == "sat" and v == "unsat":
                 if idx == 0 or name != "witness-all-finish":
-                    raise Inconclusive("vacuity witness %s is unsat for %s K=%d" % (name, nm, r["K"]))
+                    problems.append("vacuity witness %s is unsat for %s K=%d" % (name, nm, r["K"]))
             elif name == "range-of-narrowed-variables" and v == "sat":
-                raise Inconclusive("a narrowed state variable can exceed its width (%s): %s" % (nm, panic_class(q.get("trace"))))
+                problems.append("a narrowed state variable can exceed its width (%s): %s" % (nm, panic_class(q.get("trace"))))
             elif name == "unfinished-at-K" and v == "sat":
                 if idx == 0:
-                    raise Inconclusive("core configuration %s: executions longer than K=%d exist — bound too small" % (nm, r["K"]))
+                    problems.append("core configuration %s: executions longer than K=%d exist — bound too small" % (nm, r["K"]))
                 bounded.append("%s: executions longer than K=%d exist; safety is decided up to K only (bug hunting)" % (nm, r["K"]))
             elif exp == "unsat" and v == "sat":
                 tr = q.get("trace") or []
+                if q.get("replayed") is False:
+                    problems.append("counterexample of %s (%s) does not reproduce when the trace is re-executed on the MIR: %s"
+                                       % (name, nm, "; ".join((q.get("replay_log") or [])[-3:])))
+                    continue
                 what = "%s in configuration %s: %s" % (name, nm, panic_class(tr))
                 rep.violation("%s/%s/%s" % (key_prefix, name, panic_class(tr)), what,
-                              {"config": r.get("cfg"), "K": r["K"], "trace": tr})
-    return nq, undecided, bounded
+                              {"config": r.get("cfg"), "K": r["K"], "trace": tr, "replay_log": q.get("replay_log")})
+                r["_replayed"] = r.get("_replayed", 0) + (1 if q.get("replayed") else 0)
+    if problems and not rep.new:
+        raise Inconclusive("; ".join(problems[:4]))
+    return nq, undecided, bounded + ["(inconclusive) " + p for p in problems]
